@@ -79,6 +79,18 @@ def wf_clauses(S, ret, srow, Nn, tag="result"):
     rf = N.ensure_rows(S.ctx, subs)
     i, j = z3.Int("wf!i"), z3.Int("wf!j")
     out.append((f"{tag}:subscripts-inside-shape", T.ForAll([i], z3.Implies(z3.And(0 <= i, T.tz(i < m)), N.INRNG(srow, rf(i))))))
+    cc = getattr(subs, "concat_of", None)
+    if cc is not None and cc[2] == 0 and all(getattr(p, "rowfn", None) is not None for p in cc[0]) and not S.at_call_site:
+        # stacked blocks: distinctness block by block and across blocks (smaller queries)
+        parts = cc[0]
+        for x in range(len(parts)):
+            rx, nx = parts[x].rowfn, parts[x].shape[0]
+            out.append((f"{tag}:subscripts-pairwise-distinct[block{x}]", T.ForAll(
+                [i, j], z3.Implies(z3.And(0 <= i, i < j, T.tz(j < nx)), rx(i) != rx(j))), "lemma"))
+            for y in range(x + 1, len(parts)):
+                ry, ny = parts[y].rowfn, parts[y].shape[0]
+                out.append((f"{tag}:subscripts-pairwise-distinct[block{x},block{y}]", T.ForAll(
+                    [i, j], z3.Implies(z3.And(0 <= i, T.tz(i < nx), 0 <= j, T.tz(j < ny)), rx(i) != ry(j))), "lemma"))
     out.append((f"{tag}:subscripts-pairwise-distinct", T.ForAll([i, j], z3.Implies(z3.And(0 <= i, i < j, T.tz(j < m)), rf(i) != rf(j)))))
     return out
 
@@ -272,7 +284,7 @@ class sp_permute(Contract):
         subs, vals, shape = result_parts(ret)
         slen, sat = seq_view(shape)
         m, k = z3.Int("p!m"), z3.Int("p!k")
-        gh = S.ctx.ghosts.get("argsort")
+        gh = S.body_ghosts.get("argsort")
         if gh:
             # the validity check sorts `order`; on a returning path the sorted values are 0..N-1
             p_, pinv_ = gh[-1]
@@ -362,3 +374,186 @@ class sp_mask(Contract):
         k = z3.Int("mk!k")
         yield "value-of-S-at-the-mask-subscript", T.ForAll(
             [k], z3.Implies(z3.And(0 <= k, k < nW), T.tz(T.as_real(ret.fn(k, 0))) == den(A, W.fields["subs"].rowfn(k))))
+
+
+@register
+class sp_allsubs(Contract):
+    """ASSUMED contract (the body loops over a symbolic number of modes through khatrirao and is
+    outside the executor's reach); validated by the bounded stand-in c06.allsubs."""
+    qual = Q + "allsubs"
+    props = ("C03", "C06")
+    assumed = True
+    doc = (
+        "S.allsubs(): the prod(shape) x N matrix whose row l is UNRAVEL_C(shape, l): every in-range "
+        "subscript exactly once, last mode fastest."
+    )
+
+    def setup(self, S, case):
+        return dict(__self__=sym_sptensor(S, "A"))
+
+    def fresh_result(self, S, a):
+        A = a["__self__"]
+        shape = A.fields["shape"]
+        srow = N.seq_as_row(S.ctx, shape)
+        for ax in N.mixed_radix_axioms():
+            S.ctx.assume(ax, trusted="lemma:L1 mixed-radix RAVEL/UNRAVEL inverse bijections")
+        P = N.PRODR(srow)
+        Nn = shape.shape[0] if isinstance(shape, Arr) else len(shape)
+        r = Arr((P, Nn), lambda l, m: N.relem(N.UNRAVELC(srow, T.tz(l)), T.tz(m)), "int")
+        r.rowfn = lambda l: N.UNRAVELC(srow, T.tz(l))
+        r.nonneg = True
+        r.allsubs_of = srow
+        return r
+
+    def ensures(self, S, a, ret):
+        return []
+
+
+def indicator_clauses(S, ret, A, pred, witness=None, tag="indicator"):
+    """Clauses saying: ret is a well-formed sptensor of A's shape whose stored values are all 1 and
+    whose stored rows are exactly the in-range rows r with pred(r).  `witness(r)` names the
+    position of row r in the result for the completeness clause."""
+    g = A.ghost
+    srow, Nn = g["srow"], g["N"]
+    out = [("returns-sptensor", _is_sptensor(ret))]
+    if not _is_sptensor(ret):
+        return out
+    out.append(("shape-kept", shape_equal(S, ret.fields["shape"], A.fields["shape"])))
+    out += wf_clauses(S, ret, srow, Nn)
+    subs, vals, _ = result_parts(ret)
+    if subs.ndim != 2 or vals.ndim != 2:
+        return out
+    m = subs.shape[0]
+    rf = N.ensure_rows(S.ctx, subs)
+    k = z3.Int("ind!k")
+    r = z3.Const("ind!r", N.Row)
+    out.append((f"{tag}:stored-values-are-one", T.ForAll([k], z3.Implies(z3.And(0 <= k, T.tz(k < m)), T.tz(T.as_real(vals.fn(k, 0))) == 1))))
+    out.append((f"{tag}:stored-rows-satisfy-the-predicate", T.ForAll([k], z3.Implies(z3.And(0 <= k, T.tz(k < m)), pred(rf(k))))))
+    if witness is not None:
+        out.append((f"{tag}:every-row-satisfying-the-predicate-is-stored(witness)", T.ForAll(
+            [r], z3.Implies(z3.And(N.INRNG(srow, r), pred(r)), z3.And(0 <= witness(r), T.tz(witness(r) < m), rf(witness(r)) == r)), [N.INRNG(srow, r)])))
+    else:
+        out.append((f"{tag}:every-row-satisfying-the-predicate-is-stored", T.ForAll(
+            [r], z3.Implies(z3.And(N.INRNG(srow, r), pred(r)), T.Exists([k], z3.And(0 <= k, T.tz(k < m), rf(k) == r))))))
+    return out
+
+
+def fresh_sptensor_like(S, A, name="R"):
+    """Unconstrained sptensor record with A's shape (result of a contracted call)."""
+    n = S.nat(name + "_nnz")
+    shape = A.fields["shape"]
+    Nn = shape.shape[0] if isinstance(shape, Arr) else len(shape)
+    subs = S.row_matrix(name + "_subs", n, Nn)
+    vals = S.matrix(name + "_vals", n, 1, "real")
+    return Rec("sptensor", dict(subs=subs, vals=vals, shape=shape))
+
+
+@register
+class sp_logical_not(Contract):
+    qual = Q + "logical_not"
+    props = ("C03", "C06")
+    doc = "S.logical_not(): well-formed indicator of exactly the in-range positions where Den(S) is zero."
+    inline = INLINE_CTOR
+
+    def setup(self, S, case):
+        return dict(__self__=sym_sptensor(S, "A"))
+
+    def fresh_result(self, S, a):
+        return fresh_sptensor_like(S, a["__self__"])
+
+    def ensures(self, S, a, ret):
+        A = a["__self__"]
+        find = A.ghost["find"]
+        srow = A.ghost["srow"]
+        gs = S.body_ghosts.get("call:tt_setdiff_rows")
+        wit = None
+        if gs:
+            where = gs[-1].ghost["where"]
+            wit = lambda r: where(N.RAVELC(srow, r))
+        for c in indicator_clauses(S, ret, A, lambda r: find(r) == -1, wit):
+            yield c
+
+
+def _den_pred(A, f):
+    """pred(r) := f(stored?, value) evaluated on Den(A)(r)."""
+    find, vals = A.ghost["find"], A.fields["vals"]
+    return lambda r: f(find(r) >= 0, T.tz(vals.fn(find(r), 0)))
+
+
+class _ScalarCompare(Contract):
+    props = ("C03", "C06")
+    inline = INLINE_CTOR + (Q + "_compare", Q + "nnz", Q + "ndims")
+    op = None  # (python operator on z3 terms)
+
+    def case_names(self):
+        return ["c>0", "c<0", "c==0"]
+
+    def setup(self, S, case):
+        A = sym_sptensor(S, "A")
+        c = S.real("c")
+        S.assume({"c>0": c > 0, "c<0": c < 0, "c==0": c == 0}[case])
+        return dict(__self__=A, other=c)
+
+    def ensures(self, S, a, ret):
+        A, c = a["__self__"], a["other"]
+        find, srow = A.ghost["find"], A.ghost["srow"]
+        op = type(self).op
+        pred = _den_pred(A, lambda stored, v: z3.If(stored, op(v, c), op(z3.RealVal(0), c)))
+        g = S.body_ghosts
+        wit = None
+        sel = g.get("select")
+        sd = g.get("call:tt_setdiff_rows")
+        if sel:
+            K, _, rk = sel[-1]
+            if sd:
+                where = sd[-1].ghost["where"]
+                wit = lambda r: z3.If(find(r) >= 0, rk(find(r)), K + where(N.RAVELC(srow, r)))
+            else:
+                wit = lambda r: rk(find(r))
+        elif sd:
+            where = sd[-1].ghost["where"]
+            wit = lambda r: where(N.RAVELC(srow, r))
+        for cl in indicator_clauses(S, ret, A, pred, wit):
+            yield cl
+
+
+@register
+class sp_lt(_ScalarCompare):
+    qual = Q + "__lt__"
+    doc = "S < c (scalar): well-formed indicator of exactly the positions where Den(S) < c (implicit zeros included when 0 < c)."
+    op = staticmethod(lambda v, c: v < c)
+
+
+@register
+class sp_le(_ScalarCompare):
+    qual = Q + "__le__"
+    doc = "S <= c (scalar): indicator of exactly the positions where Den(S) <= c."
+    op = staticmethod(lambda v, c: v <= c)
+
+
+@register
+class sp_gt(_ScalarCompare):
+    qual = Q + "__gt__"
+    doc = "S > c (scalar): indicator of exactly the positions where Den(S) > c."
+    op = staticmethod(lambda v, c: v > c)
+
+
+@register
+class sp_ge(_ScalarCompare):
+    qual = Q + "__ge__"
+    doc = "S >= c (scalar): indicator of exactly the positions where Den(S) >= c."
+    op = staticmethod(lambda v, c: v >= c)
+
+
+@register
+class sp_eq(_ScalarCompare):
+    qual = Q + "__eq__"
+    doc = "S == c (scalar): indicator of exactly the positions where Den(S) == c (c == 0: the implicit zeros)."
+    op = staticmethod(lambda v, c: v == c)
+
+
+@register
+class sp_ne(_ScalarCompare):
+    qual = Q + "__ne__"
+    doc = "S != c (scalar): indicator of exactly the positions where Den(S) != c."
+    op = staticmethod(lambda v, c: v != c)
